@@ -61,8 +61,36 @@ def judge(ctx, path, what):
     return bad, tuple(int(x) for x in m.groups())
 
 
-def refine(sig, rec):
+RESP_NAMES = {"APPENDUID", "COPYUID", "FETCH", "EXPUNGE", "EXISTS", "RECENT", "SEARCH", "ESEARCH", "SORT", "THREAD", "LIST",
+              "STATUS", "QUOTA", "QUOTAROOT", "METADATA", "NAMESPACE", "FLAGS", "CAPABILITY", "ENABLED", "PERMANENTFLAGS",
+              "UIDNEXT", "UIDVALIDITY", "HIGHESTMODSEQ"}
+
+
+def resp_kind(rec, at=0):
+    """signatures name the response the violated invariant sits in (as the harness does)"""
+    toks = rec["t"]
+    lo, hi = 0, len(toks)
+    if 0 < at <= len(toks):
+        for i in range(at - 2, -1, -1):
+            if toks[i] == "CRLF":
+                lo = i + 1
+                break
+        for i in range(at - 1, len(toks)):
+            if toks[i] == "CRLF":
+                hi = i
+                break
+    for t in toks[lo:hi]:
+        if t in RESP_NAMES:
+            return t.lower()
+    return rec["k"]
+
+
+def refine(sig, rec, at=0):
     """the judge's coarse monitor signatures are narrowed with what the harness saw"""
+    if sig.startswith("not-rejected/"):
+        return ["/".join(sig.split("/")[:2] + [resp_kind(rec, at)])]
+    if sig.startswith("conformant-rejected/"):
+        return ["conformant-rejected/" + re.sub(r"[^A-Za-z0-9._-]", "-", sig.split("/", 2)[2])]
     if sig in ("crash", "nonreturn", "reader-panic", "accessor-panic"):
         pre = {"crash": ("unbounded-recursion/", "memory-blowup/", "crash/"), "nonreturn": ("nonreturn/",),
                "reader-panic": ("reader-panic/",), "accessor-panic": ("accessor-panic/",)}[sig]
@@ -74,7 +102,7 @@ def refine(sig, rec):
 def case_of(rec, cls="", why=""):
     x = rec.get("x") or {}
     return {"id": 0, "k": rec["k"], "b": "", "m": x.get("m", "recorded"), "c": cls, "w": why, "e": "ok",
-            "tg": x.get("tg", 0), "sm": x.get("sm", 0), "t": rec["t"]}
+            "tg": x.get("tg", 0), "sm": x.get("sm", 0), "t": rec["t"]}  # wi is filled by the caller
 
 
 def run(ctx):
@@ -85,6 +113,14 @@ def run(ctx):
     def lap(name):
         phases[name] = round(time.time() - t[0], 1)
         t[0] = time.time()
+
+    pending = []      # (sig, detail, replay): emitted round-robin by signature at the end, so that
+                      # every distinct signature gets a replay file before the driver's cap is reached
+
+    def take(recs):
+        for r in recs:
+            if r.get("kind") == "mismatch":
+                pending.append((r.get("sig", "?"), r.get("detail", ""), r.get("replay")))
 
     env = {"RF_SEED": str(ctx.seed % 1024)}
     # 1. model check of the classification + generation, one run
@@ -100,8 +136,8 @@ def run(ctx):
     obs_path = os.path.join(ctx.scratch, "obs.ndjson")
     recs, _, _ = ctx.harness(binp, ["replay", g.out_path, "-obs", obs_path], timeout=2400)
     s = ctx.summary(recs)
-    ctx.take_mismatches(recs)
-    count_hidden(ctx, recs, s)
+    take(recs)
+    hidden = count_hidden(ctx, recs, s)
     if s["behaviours"] != g.generated - g_initial(g):
         ctx.notes.append("TLC generated %d transitions, %d lines replayed" % (g.generated, s["behaviours"]))
     ctx.cov["traces_validated_against_impl"] += s["behaviours"]
@@ -114,34 +150,35 @@ def run(ctx):
     # 3. resource monitor
     rrecs, _, _ = ctx.harness(binp, ["resource"], timeout=1200)
     rs = ctx.summary(rrecs)
-    ctx.take_mismatches(rrecs)
-    count_hidden(ctx, rrecs, rs)
+    take(rrecs)
+    merge(hidden, count_hidden(ctx, rrecs, rs))
     ctx.cov["evaluations"] += rs["steps"]
     lap("resource")
 
     # 4. impl -> spec
     tr = os.path.join(ctx.scratch, "respfuzz.ndjson")
-    n, rawn = (2500, 20000) if quick else (15000, 300000)
+    n, rawn = (2500, 20000) if quick else (10000, 150000)
     xrecs, _, _ = ctx.harness(binp, ["random", g.out_path, tr, "-seed", ctx.seed, "-n", n, "-rawn", rawn], timeout=2400)
     xs = ctx.summary(xrecs)
-    ctx.take_mismatches(xrecs)
-    count_hidden(ctx, xrecs, xs)
+    take(xrecs)
+    merge(hidden, count_hidden(ctx, xrecs, xs))
     lap("random")
     bad, classes = judge(ctx, tr, "recorded random token lines")
     lines = open(tr).read().splitlines()
     seen = {}
     for b in bad:
         rec = json.loads(lines[b["line"] - 1])
-        for sig in refine(b["sig"], rec):
+        for sig in refine(b["sig"], rec, b.get("at", 0)):
             seen[sig] = seen.get(sig, 0) + 1
+            hidden[sig] = hidden.get(sig, 0) + 1
             if seen[sig] > 3:
                 if any(k["sig"] == sig for k in ctx.known):
                     ctx.mismatch(sig, "", None)
                 continue
             x = rec.get("x") or {}
-            ctx.mismatch(sig, "judge RespFuzzTrace, record %d: context=%s tokens=%s class=%s %s outcome=%s %s" % (
+            pending.append((sig, "judge RespFuzzTrace, record %d: context=%s tokens=%s class=%s %s outcome=%s %s" % (
                 b["line"], rec["k"], " ".join(rec["t"])[:300], b["class"], b.get("why", ""), json.dumps(rec["o"]),
-                (x.get("errtext") or x.get("crashtail") or "")[:300]), case_of(rec, b["class"], b.get("why", "")))
+                (x.get("errtext") or x.get("crashtail") or "")[:300]), dict(case_of(rec, b["class"], b.get("why", "")), wi=b.get("at", 0))))
     ctx.cov["traces_validated_against_impl"] += xs["records"]
     ctx.cov["evaluations"] += xs["records"] + xs["raw"]
     ctx.cov["distinct_nontrivial"] += classes[0] + classes[1]
@@ -156,6 +193,19 @@ def run(ctx):
         os.unlink(g.out_path)
     except OSError:
         pass
+    rounds = {}
+    for item in pending:
+        rounds.setdefault(item[0], []).append(item)
+    order = ["unbounded-recursion", "crash", "reader-panic", "accessor-panic", "memory-blowup", "superlinear-memory",
+             "superlinear-time", "nonreturn", "not-rejected", "conformant-rejected"]
+
+    def rank(sig):
+        pre = sig.split("/")[0]
+        return (order.index(pre) if pre in order else len(order), sig)
+    for k in range(4):
+        for sig in sorted(rounds, key=rank):
+            if k < len(rounds[sig]):
+                ctx.mismatch(*rounds[sig][k])
     ctx.finish(
         level="model_checking",
         rule="behaviour = one generated line (context, tokens, class) run against a fresh real client, or one recorded "
@@ -167,7 +217,7 @@ def run(ctx):
                "resource_families": rs.get("families"), "resource_table": rs.get("table"),
                "random_token_lines": xs["records"], "random_token_classes_D_E_X": classes,
                "random_raw_inputs": xs["raw"], "raw_outcomes": xs.get("raw_outcomes"),
-               "binding_demo": demo, "phases_s": phases,
+               "binding_demo": demo, "phases_s": phases, "signatures_seen": hidden,
                "level_note": "classification (total, disjoint, coverage) is model-checked and bound to the real client in both "
                              "directions; panics, recursion depth, allocation and time are observed on the real code only "
                              "(exploration-level clauses)"})
@@ -181,15 +231,23 @@ def g_initial(g):
 
 
 def count_hidden(ctx, recs, summary):
-    """the harness prints at most a few mismatches per signature; the others still count as hits"""
+    """the harness prints at most a few mismatches per signature; the others still count as hits of
+    a known finding.  Returns {sig: total count}."""
     printed = {}
     for r in recs:
         if r.get("kind") == "mismatch":
             printed[r["sig"]] = printed.get(r["sig"], 0) + 1
-    for sig, n in (summary.get("sig_counts") or {}).items():
+    total = dict(summary.get("sig_counts") or {})
+    for sig, n in total.items():
         for _ in range(max(0, min(n, 50) - printed.get(sig, 0))):
             if any(k["sig"] == sig for k in ctx.known):
                 ctx.mismatch(sig, "", None)
+    return total
+
+
+def merge(a, b):
+    for k, v in b.items():
+        a[k] = a.get(k, 0) + v
 
 
 def binding_demo(ctx, obs_path):
@@ -201,9 +259,9 @@ def binding_demo(ctx, obs_path):
         d = json.loads(line)
         cs, o = d["case"], d["obs"]
         clean = o["returned"] and not o["crashed"] and not o["panic"] and not o["accpanic"]
-        if not clean or len(cs["t"]) > 80:
+        if not clean or not cs.get("t") or len(cs["t"]) > 80:
             continue
-        rec = {"k": cs["k"], "t": cs["t"], "x": {"c": cs["c"], "w": cs.get("w", ""), "b": cs.get("b", "")},
+        rec = {"k": cs["k"], "t": cs["t"], "x": {"c": cs["c"], "w": cs.get("w", ""), "b": cs.get("b", ""), "st": cs.get("st") or "OK"},
                "o": {"ret": True, "crash": False, "panic": False, "accpanic": False, "err": o["err"],
                      "status": o["errkind"] if o["err"] else "OK"}}
         if cs["c"] == "E" and o["err"] and want["E"] is None:
@@ -217,49 +275,37 @@ def binding_demo(ctx, obs_path):
     if not all(want.values()):
         raise vlib.Infra("binding demonstration: no suitable records (%s)" % {k: v is not None for k, v in want.items()})
     good = [want["E"], want["D"], want["X"]] + sample
-    p = os.path.join(ctx.scratch, "demo-good.ndjson")
-    open(p, "w").write("".join(json.dumps(r) + "\n" for r in good))
-    bad, classes = judge(ctx, p, "binding demonstration (true records)")
-    # the judge must flag exactly the records the direct comparison flagged: none here by selection
-    # of clean E/D records, and class counts must equal the generator's classes
-    gen_classes = tuple(sum(1 for r in good if r["x"]["c"] == c) for c in ("D", "E", "X"))
-    if classes != gen_classes:
-        raise vlib.Infra("binding demonstration: judge classes %s differ from generator classes %s" % (classes, gen_classes))
-    expected_bad = set()
-    for i, r in enumerate(good):
-        c, o = r["x"]["c"], r["o"]
-        if c == "E" and not o["err"]:
-            expected_bad.add(i + 1)
-        if c == "D" and o["status"] != "OK" and not r["x"]["b"].startswith(("tagged.no", "tagged.bad", "login.no", "copy.no")):
-            expected_bad.add(i + 1)
-    got_bad = set(b["line"] for b in bad if b["sig"].startswith(("not-rejected", "conformant-rejected")))
-    if not got_bad <= expected_bad | got_bad_status(good, bad):
-        raise vlib.Infra("binding demonstration: judge flags %s, direct comparison %s" % (sorted(got_bad)[:5], sorted(expected_bad)[:5]))
-    if not expected_bad <= got_bad:
-        raise vlib.Infra("binding demonstration: judge misses %s" % sorted(expected_bad - got_bad)[:5])
-    # corrupt one field in each of the first three
+    # the same three records with one outcome field corrupted each, appended at the end
     e, d, x = (json.loads(json.dumps(want[k])) for k in ("E", "D", "X"))
     e["o"]["err"] = False
     e["o"]["status"] = "OK"
     d["o"]["err"] = True
     d["o"]["status"] = "other"
     x["o"]["panic"] = True
-    p2 = os.path.join(ctx.scratch, "demo-corrupt.ndjson")
-    open(p2, "w").write("".join(json.dumps(r) + "\n" for r in (e, d, x)))
-    bad2, _ = judge(ctx, p2, "binding demonstration (corrupted records)")
-    got = sorted((b["line"], b["sig"].split("/")[0]) for b in bad2)
+    n = len(good)
+    p = os.path.join(ctx.scratch, "demo.ndjson")
+    open(p, "w").write("".join(json.dumps(r) + "\n" for r in good + [e, d, x]))
+    bad, classes = judge(ctx, p, "binding demonstration")
+    gen_classes = tuple(sum(1 for r in good if r["x"]["c"] == c) + 1 for c in ("D", "E", "X"))
+    if classes != gen_classes:
+        raise vlib.Infra("binding demonstration: judge classes %s differ from generator classes %s" % (classes, gen_classes))
+    # on the true records the judge must flag exactly what the direct comparison flags
+    expected_bad = set()
+    for i, r in enumerate(good):
+        c, o = r["x"]["c"], r["o"]
+        if (c == "E" and not o["err"]) or (c == "D" and o["status"] != r["x"]["st"]):
+            expected_bad.add(i + 1)
+    got_bad = set(b["line"] for b in bad if b["line"] <= n)
+    if got_bad != expected_bad:
+        raise vlib.Infra("binding demonstration: judge flags %s, direct comparison flags %s" % (
+            sorted(got_bad ^ expected_bad)[:5], sorted(expected_bad)[:5]))
+    got = sorted((b["line"] - n, b["sig"].split("/")[0]) for b in bad if b["line"] > n)
     exp = [(1, "not-rejected"), (2, "conformant-rejected"), (3, "reader-panic")]
     if got != exp:
         raise vlib.Infra("binding demonstration failed: corrupted records judged %s, expected %s" % (got, exp))
-    return ("%d records built from generated lines with their real outcome: judge classes %s = generator classes, "
-            "judge flags = direct comparison (%d); corrupted err of an E record, status of a D record, panic of an X record: "
-            "flagged at records 1,2,3 as %s" % (len(good), classes, len(expected_bad), [g_[1] for g_ in got]))
-
-
-def got_bad_status(good, bad):
-    """D records of NO/BAD productions are judged on the exact status by the judge"""
-    return set(b["line"] for b in bad if b["sig"].startswith("conformant-rejected")
-               and good[b["line"] - 1]["x"]["c"] == "D")
+    return ("%d records built from generated lines with their real outcome: judge classes = generator classes %s, "
+            "judge flags = direct comparison (%d records); the same E / D / X record with err, status, panic corrupted: "
+            "flagged at exactly those records as %s" % (n, classes, len(expected_bad), [g_[1] for g_ in got]))
 
 
 def replay(ctx, path):
